@@ -151,6 +151,18 @@ def build_pool(rng, tier):
             fam = [{"port": "pack", "args": pack_unit("bc", C, vals, rng, fmt=rng.choice(["list", "dict_str"]), out=rng.choice(["pst", "sums"]))["params"]} for C in rng.sample(caps, min(4, len(caps)))]
             fams.append(fam)
             fams.append(fam)      # twice: these families are picked more often
+    # ... and a long list of such searches (small values, 5-10 items), each of which is made TWICE in a row inside one history (units()):
+    # a memo that hands out a mutable value which its first user then alters corrupts the second identical search on about 1 in 100 of them
+    tries = []
+    for _ in range(700 if tier == "quick" else 4000):
+        lo, hi, nlo, nhi, cx = rng.choice([(1, 20, 5, 8, 15), (1, 12, 6, 10, 8), (1, 30, 6, 9, 10)])
+        vals = [rng.randint(lo, hi) for _ in range(rng.randint(nlo, nhi))]
+        tries.append((rng.randint(max(vals), max(vals) + cx), vals))
+    res = runner.run_model([runner.model_line("bfd", [0, C, vals, vals]) for C, vals in tries])
+    del SEARCHES[:]
+    for (C, vals), r in zip(tries, res):
+        if isinstance(r, dict) and "ok" in r and len(r["ok"]) > -(-sum(vals) // C):
+            SEARCHES.append({"port": "pack", "args": pack_unit("bc", C, vals, rng, fmt="list", out=rng.choice(["pst", "sums", "bincount"]))["params"]})
     FAMILIES[:] = fams
     seen = set()
     for fam in fams:
@@ -161,6 +173,7 @@ def build_pool(rng, tier):
 
 
 FAMILIES = []
+SEARCHES = []
 
 
 def units(rng, tier):
@@ -175,6 +188,8 @@ def units(rng, tier):
         for _b in range(rng.randint(1, 3)):
             fam = rng.choice(FAMILIES)
             burst = [POOL.index(c) for c in rng.sample(fam, min(len(fam), rng.randint(2, 5)))]
+            if rng.random() < 0.6:
+                burst.append(burst[0])      # ... and the very same call once more (a memo whose stored value was altered by its first user)
             at = rng.randrange(n)
             idx[at:at] = burst
         n = len(idx)
@@ -184,6 +199,11 @@ def units(rng, tier):
         idx[rng.randrange(1, n)] = rng.choice(fails)
         calls = [{"port": POOL[i]["port"], "args": POOL[i]["args"]} for i in idx]
         us.append({"kind": "history", "params": {"calls": calls}, "cmp": None, "family": "random-history"})
+    # histories of bin-completion searches, each made twice in a row (see build_pool)
+    per = 60
+    for i in range(0, len(SEARCHES), per):
+        calls = [c for c in SEARCHES[i:i + per] for _ in (0, 1)]
+        us.append({"kind": "history", "params": {"calls": calls}, "cmp": None, "family": "bc-searches-twice"})
     return us
 
 
@@ -246,6 +266,8 @@ def nontrivial(u, impl, model):
     calls = u["params"]["calls"]
     algos = set(c["args"].get("algo") for c in calls)
     keys = [json.dumps(c, sort_keys=True) for c in calls]
+    if u.get("family") == "bc-searches-twice":
+        return len(calls) >= 12 and len(set(keys)) < len(keys)
     return len(calls) >= 12 and len(algos) >= 5 and len(set(keys)) < len(keys)
 
 
